@@ -81,7 +81,7 @@ CHECKS['C08'] = dict(
 CHECKS['C01'] = dict(
     text=_MP_TEXT + 'For every execution TLC prints the predicted observation (return value, ordered effect log of tracer calls and '
          'context-manager enter/exit, escaping exception type, log length at the raise); each is replayed with the same decision '
-         'vector into the function converted by the real malt (to_graph and the convert decorator; thorough: five option sets '
+         'vector into the function converted by the real malt (to_graph and the convert decorator, plus the LISTS feature for programs with list state; thorough: five option sets '
          'incl. recursive=False and BUILTIN_FUNCTIONS/EQUALITY_OPERATORS) and must agree. The exploration runs under the '
          'Liveness monitor so that a divergence is attributed by the specification to an analysis defect already listed as a '
          'known finding, or reported.',
@@ -342,7 +342,7 @@ def build():
                       kind_free_text='TLC 1.8 model checker on the TLA+ modules in /verif/spec; Python conformance harness in /verif/vf')],
         checks=checks,
         notes='All checks: ./check <ID> --tier quick|thorough. Exit 0 held / 1 VIOLATION / 2 machinery failure. '
-              'Specifications in /verif/spec, harness in /verif/vf, known findings in /verif/known_findings.json.',
+              'Specifications in /verif/spec, harness in /verif/vf, known findings in /verif/known_findings/<ID>.json (open entries with repro, fixed lines).',
         not_applicable=na)
     return m
 
